@@ -68,7 +68,7 @@ ASSUMPTIONS = [
 # ---------------------------------------------------------------------------------------------------------------
 MNEMS = ['GR', 'A1', 'SFLU', 'X-Y_2', '42', 'NO', 'TIME', 'DATE']   # TIME / DATE: the reader has special (DATE, D) and (TIME, HHMMSS) channels; with other units they are ordinary curves
 UNITS = ['', 'M', 'F', 'US/F', '.1IN', 'S']
-VALUES = ['', '7', '-7', '1.5', '1e3', 'yes', 'NO', '12:30:00', '13-DEC-86', 'A.B 1', 'a b  c', '9007199254740993']   # last: an integer that no double holds (2^53 + 1)
+VALUES = ['', '7', '-7', '1.5', '1e3', 'yes', 'NO', 'Yes', 'nO', '12:30:00', '13-DEC-86', 'A.B 1', 'a b  c', '9007199254740993']   # last: an integer that no double holds (2^53 + 1)
 DESCS = ['', 'text', 'two words', '1 DEPTH', 'x.y', '42', 'yes']
 CELLS = ['1.5', '-0.25', '1e-3', L.CELL_NULL, 'abc', 'NaN', '1.2.3']
 
@@ -156,6 +156,7 @@ def shards(tier):
     out.append({'fam': 'index'})
     for nfr in (1, 2, 3):
         out.append({'fam': 'nullzero', 'nfr': nfr})
+    out.append({'fam': 'dups'})
     for ncur in (1, 2, 3):
         out.append({'fam': 'tail', 'ncur': ncur})
     for lead, predot, precolon in itertools.product((0, 1, 7), (0, 1, 7), (1, 0, 7)):
@@ -265,8 +266,9 @@ def observe(text, content, by_path=False):
 def expected_with_lookup(content, layout):
     exp = L.expected(content, layout)
     for sname, lines in (('W', content['well']), ('C', content['curves']), ('P', content['params'] or [])):
+        names = [ln[0].strip() for ln in lines]
         for i, _ln in enumerate(lines):
-            exp[(sname, i, 'lookup')] = ('int', i)
+            exp[(sname, i, 'lookup')] = ('int', names.index(names[i]))     # the first line of that name
     return exp
 
 
@@ -519,7 +521,7 @@ def data_layouts(content, tier, full):
                 seen.add(t)
                 lays.append(lay)
         return lays
-    lays = [{}] + [{k: v} for k, v in L.DEVIATIONS if (k in DATA_DIMS or k in ('eol', 'nl')) and L.relevant((k, v), content)]
+    lays = [{}] + [{k: v} for k, v in L.DEVIATIONS if (k in DATA_DIMS or k in ('eol', 'nl', 'wrapcase')) and L.relevant((k, v), content)]
     lays += [{'wrap': w, 'sep': s} for w in ('all', 2) for s in ('\t', '  \t ') if L.relevant(('wrap', w), content)]
     return lays
 
@@ -584,6 +586,21 @@ def run_shard(shard, tier):
                 if lays is None or ncur == 3:
                     lays = data_layouts(content, tier, False)
                 r.run(content, lays)
+    elif fam == 'dups':
+        # a mnemonic that comes twice in the well / parameter section (two runs in one file): every line is still reported,
+        # a lookup by name gives the first, and the lines after the repeat - NULL among them - are found under their own names
+        run = [['RUN', '', '1', 'RUN ONE'], ['RUN', '', '2', 'RUN TWO']]
+        bht = [['BHT', 'DEGC', '35.5', 'FIRST RUN'], ['BHT', 'DEGC', '36', 'SECOND RUN']]
+        for null in ('-9999', '-999.25', '0'):
+            for where in ('before_null', 'after_null', 'params_first', 'params_last', 'both'):
+                head = [['STRT', 'M', '100.0', 'START DEPTH'], ['STOP', 'M', '101.0', 'STOP DEPTH'], ['STEP', 'M', '0.5', 'STEP']]
+                nl = ['NULL', '', L.NULL_TEXTS[null][0], 'NULL VALUE']
+                well = head + (run + [nl] if where in ('before_null', 'both') else [nl] + (run if where == 'after_null' else []))
+                params = {'params_first': bht + PARAM_POOL[:2], 'params_last': PARAM_POOL[:1] + bht, 'both': [bht[0], PARAM_POOL[0], bht[1], PARAM_POOL[1]]}.get(where, PARAM_POOL[:1])
+                for cells in (['1.5', 'abc', L.CELL_NULL], ['abc', '2.5', '-999.25']):
+                    content = L.make_content(null=null, well_head=well, well_extra=WELL_POOL[:1], curves=CURVE_POOL[:2], params=params,
+                                             frames=[[x, c] for x, c in zip(('100.0', '100.5', '101.0'), cells)], vdesc=VDESC['2.0'], dups=True)
+                    r.run(content, data_layouts(content, tier, False))
     elif fam == 'tail':
         # the end of the text: lines of one or two characters, with and without the final newline, wrapped or not
         ncur = shard['ncur']
